@@ -229,3 +229,15 @@ for _own, _passed in (('dict{}', 'dict{A:opq:arr,B:opq:arr}'), ('dict{A:opq:arr}
 
 for _t in ('dtype', 'sdtype', 'ndarray', 'sarray', 'source', 'chunk', 'slot', 'row', 'arr'):
     OPQ_MODELS[_t]['__truthy__'] = True      # objects of the library, never None
+
+CONTRACTS['HDF5DataWrapper.__init__'] = dict(
+    props=['C19', 'C11'], self_fields={}, self_inv=[],
+    params={'data_file_name': 'opq:path', 'mapping': M2, 'known_dtypes': 'opq:known', 'from_idx': 'int', 'to_idx': 'int?'}, returns='none',
+    may_raise=['ValueError', 'RuntimeError'],
+    call_requires={'SourceDataWrapper.__init__': [
+        ('dataset-paths-get-exactly-one-leading-slash',
+         "mapping['K0'] == (old_mapping_K0 if old_mapping_K0.startswith('/') else '/' + old_mapping_K0) and mapping['K1'] == (old_mapping_K1 if old_mapping_K1.startswith('/') else '/' + old_mapping_K1)"),
+        ('window-forwarded', 'from_idx == from_idx_in and (to_idx == to_idx_in if to_idx_in is not None else to_idx is None)')]},
+    setup=["old_mapping_K0 = mapping['K0']", "old_mapping_K1 = mapping['K1']", 'from_idx_in = from_idx', 'to_idx_in = to_idx'],
+    ensures=[])
+OPQ_MODELS['path'] = {'__isinstance__': {}, '__truthy__': True}
